@@ -62,6 +62,52 @@ func c18Worker(c *core.Collector, x *Ctx) {
 	run("c09", func() { c09Suite(sub, c.Seed+uint64(x.Batch)*7, 60+x.Batch, c.N(6, 12), c.N(150, 600)) })
 	run("c05", func() { c05Suite(sub, c.Seed+uint64(x.Batch)*7, 70+x.Batch, c.N(6, 12), c.N(30, 120)) })
 	run("latejoin", func() { c18LateJoin(c, c.Seed+uint64(x.Batch)*7, 80+x.Batch, c.N(40, 160)) })
+	if x.Batch == 0 {
+		// re-request rounds in real time: a transfer stalls after packet 1 while the terminal keeps talking; the server asks for
+		// the missing packets every 5 s — two rounds (thorough: four) with nothing filled in between, heartbeats every 400 ms
+		run("reissue-rounds", func() {
+			srvR, err := svc.Start(func() service.TerminalEventer { return svc.NewRecorder() })
+			if err != nil {
+				return
+			}
+			var rw sync.WaitGroup
+			for k := 0; k < 4; k++ {
+				rw.Add(1)
+				go func(k int) {
+					defer rw.Done()
+					t, err := svc.Dial(srvR.Addr, k%2 == 1, fmt.Sprintf("%d", 8800000+k))
+					if err != nil {
+						return
+					}
+					defer t.Close()
+					go func() {
+						for range t.Rx {
+						}
+					}()
+					t.Write(t.Frame(0x0002, 1, nil))
+					t.Write(t.SubFrame(0x0801, 10, 4, 1, make([]byte, 40)))
+					t.Write(t.SubFrame(0x0704, 20, 3, 1, make([]byte, 40)))
+					end := time.Now().Add(time.Duration(c.N(17, 28)) * time.Second)
+					// two terminals talk every 400 ms, two only every 5.4 s (one frame per round: with nothing else on the socket in
+					// between, nothing orders the writer's last look at a message before the reader's next one)
+					gap := 400 * time.Millisecond
+					if k >= 2 {
+						gap = 5400 * time.Millisecond
+					}
+					for serial := uint16(100); time.Now().Before(end); serial++ {
+						time.Sleep(gap)
+						if k == 3 {
+							t.Write(t.Frame(0x0001, serial, []byte{0, 0, 0, 2, 0}))
+						} else {
+							t.Write(t.Frame(0x0002, serial, nil))
+						}
+					}
+					c.Count("terminals_with_repeated_re_request_rounds", 1)
+				}(k)
+			}
+			rw.Wait()
+		})
+	}
 	wg.Wait()
 	// command / registry / disconnect scenarios share one server
 	srv, err := svc.Start(func() service.TerminalEventer { return svc.NewRecorder() })
